@@ -258,6 +258,16 @@ def _verdict(ctx, R, f, node, what, sc, got, want, vocab):
     return False
 
 
+def _flat_stored(e):
+    """stored(stored(base, i, v), j, w) is stored(base, i, v, j, w)"""
+    def fn(x):
+        if SC.is_call(x, "stored") and SC.is_call(x.args[1], "stored"):
+            inner = x.args[1]
+            return S.call("stored", *(list(inner.args[1:]) + list(x.args[2:])))
+        return None
+    return SC.transform(e, fn)
+
+
 _ACC_VOCAB = {"stored", "getitem", "tuple", "slice", "list", ".sum", "numpy.prod", "numpy.zeros", "len", ".astype", "comp", "range"}
 
 
@@ -275,10 +285,10 @@ def acc_values(ctx, R="R-C16-slots"):
         scen = [(None, None)] if name.endswith("vector") else [(2, 0), (2, -1), (3, 1), (3, -1), (3, 0)]
         what = "%s adds the number of vectors to the count, x to the sums and x^2 to the squares (reduced over all axes but the coefficient axis)" % name
         okc = 0
-        for stats_none in (True, False):
+        for stats_none, nvar in ((True, True), (False, True), (True, False), (False, False)):
             for rank, axis in scen:
-                sc = "%s call%s" % ("first" if stats_none else "later", "" if rank is None else ", rank %d, axis %d" % (rank, axis))
-                got = _spec(st, arr, stats_none=stats_none, rank=rank, axis=axis)
+                sc = "%s call%s, norm_var=%s" % ("first" if stats_none else "later", "" if rank is None else ", rank %d, axis %d" % (rank, axis), nvar)
+                got = _flat_stored(_spec(st, arr, stats_none=stats_none, rank=rank, axis=axis, norm_var=nvar))
                 if rank is None:
                     ncoef = S.call("len", x)
                     incs = {"count": S.ONE, "sums": x, "squares": S.power(x, S.lift(2))}
